@@ -31,6 +31,7 @@ GUARD_PROP = {
     "NothingOfARunAfterItsEnd": "C07", "JobSpawnedOnce": "C07", "JobEndedAtMostOnceAfterSpawn": "C07",
     "TaskOpensWithSpawnOnly": "C17", "FrameAfterTerminal": "C17", "RunningAtMostOnce": "C17", "CancelRecordedFirst": "C17",
     "CacheNeverAheadOfTruth": "C05", "RecordedBeforePublished": "C06",
+    "SnapshotHasEveryLoggedFrame": "C03",
     "NoOverlap": "C11", "SideEffectsAfterTheToolFinished": "C11",
 }
 
@@ -138,6 +139,8 @@ def project(path):
                     evs.append({"ev": "xb" if e.endswith("begin") else "xe", "id": str(d["tool_id"])})
             elif e in ("task.proc.spawned", "task.proc.exited") and d.get("stream"):
                 evs.append({"ev": "xb" if e.endswith("spawned") else "xe", "id": "task:" + str(d["stream"])})
+            elif e == "snapshot.written" and d.get("stream") is not None:
+                evs.append({"ev": "snap", "s": str(d["stream"]), "n": int(d.get("frames", -1))})
             elif e in ("emit.recorded", "emit.published") and d.get("stream") is not None:
                 evs.append({"ev": "rec" if e == "emit.recorded" else "pub", "s": str(d["stream"]), "q": int(d.get("seq", -1))})
     return name, evs, frames
